@@ -285,6 +285,32 @@ def check_state(ctx, name, consts, ref, rp, by_hist):
         except Exception as ex:
             ctx.violation('exception %s in HSplineFunc truncate=%s %s' % (type(ex).__name__, trunc, sig), {'error': repr(ex)})
 
+    # (iv') directions that differ ONLY in the position of their knots (same degree, size, interval): uniform along one axis,
+    # graded along the other -- outside the HSpace model (uniform levels), so a numeric predicate on the same history:
+    # level-wise evaluation of random coefficients = the finest tensor-product spline with coefficients represent_fine() u
+    if hs.dim == 2 and len(hist) >= 1:
+        try:
+            pg = max(consts['P1'], consts['P2'])
+            kvu = bspline.make_knots(pg, 0.0, 1.0, consts['N1'])
+            br = np.linspace(0.0, 1.0, consts['N2'] + 1) ** 2            # graded breakpoints, same count if N1 == N2
+            kvg = bspline.KnotVector(np.concatenate([np.zeros(pg), br, np.ones(pg)]), pg)
+            if consts['N1'] == consts['N2']:
+                for trunc in (False, True):
+                    hg = hierarchical.HSpace((kvu, kvg), truncate=trunc, disparity=(consts['Disp'] or np.inf))
+                    for call in hist:
+                        hg.refine(hs_util.render_marks(call, 'set', hg))
+                    ug = np.random.RandomState(7 + n).randint(-3, 4, size=hg.numdofs).astype(float)
+                    fg = hierarchical.HSplineFunc(hg, ug)
+                    kvf2 = hg.knotvectors(hg.numlevels - 1)
+                    gg = bspline.BSplineFunc(kvf2, (hg.represent_fine() @ ug).reshape(tuple(kv.numdofs for kv in kvf2)))
+                    grid2 = (np.linspace(0, 1, 9), np.linspace(0, 1, 11))
+                    a, b = np.asarray(fg.grid_eval(grid2)), np.asarray(gg.grid_eval(grid2))
+                    if a.shape != b.shape or abs(a - b).max() > 1e-10 * max(1.0, abs(b).max()):
+                        ctx.violation('numeric: level-wise evaluation differs from represent_fine on uniform x graded directions truncate=%s'
+                                      % trunc, {'config': name, 'marks_per_call': marks, 'maxdiff': float(abs(a - b).max())})
+        except Exception as ex:
+            ctx.violation('exception %s uniform x graded directions %s' % (type(ex).__name__, sig), {'error': repr(ex)})
+
     # (v') a THB space restricts to a THB space: the trace of sum_i u_i T_i is sum_k u_idx[k] T^b_k in the face space's OWN
     # (default) basis
     if hs.dim == 2:
